@@ -322,15 +322,22 @@ func VerifC02Link(v *verifrt.T) {
 	k.SetPermissions(security.AllowReadWrite)
 	k.SetTarget("a/")
 	name := e.ciph.add(k)
-	a, _ := hconn(e.svc, 0)
+	a, asock := hconn(e.svc, 0)
 	b, bsock := hconn(e.svc, 1)
 	c, _ := hconn(e.svc, 2)
 	v.Assert(e.ps.OnSubscribe(b, []byte(name+"/a/")) == nil, "C02.link.env")
+	// the link may carry channel options (me=0: do not echo to the publisher) and may
+	// subscribe its owner
+	me0, ownerSubscribes := v.Bool("me0"), v.Bool("ownersub")
+	linkChannel := "a/"
+	if me0 {
+		linkChannel = "a/?me=0"
+	}
 	alias := v.Bytes(1+v.Choice(2, "alen"), "alias")
 	for _, ch := range alias {
 		v.Assume((ch >= 'a' && ch <= 'z') || (ch >= '0' && ch <= '9'))
 	}
-	req := link.Request{Name: string(alias), Key: name, Channel: "a/", Subscribe: false}
+	req := link.Request{Name: string(alias), Key: name, Channel: linkChannel, Subscribe: ownerSubscribes}
 	var payload []byte
 	if v.Symbolic() {
 		hLinkReq = req
@@ -344,6 +351,12 @@ func VerifC02Link(v *verifrt.T) {
 	err := e.ps.OnPublish(a, &mqtt.Publish{Topic: append([]byte(nil), alias...), Payload: []byte{0x43}})
 	v.Assert(err == nil, "C02.link.publish-on-alias-accepted")
 	v.Assert(len(bsock.writes) == 1, "C02.link.delivered-once")
+	// the owner hears its own message exactly when it subscribed and did not exclude itself
+	wantOwn := 0
+	if ownerSubscribes && !me0 {
+		wantOwn = 1
+	}
+	v.Assert(len(asock.writes) == wantOwn, "C02.link.options-of-the-linked-channel-apply")
 	if len(bsock.writes) == 1 {
 		p, derr := mqtt.DecodePacket(bytes.NewReader(bsock.writes[0]), 65536)
 		v.Assert(derr == nil, "C02.link.packet-well-formed")
